@@ -5,7 +5,11 @@ claim("C01",
       "Static conformance of every RR type's pack/unpack to an independent RFC layout table, dual codecs per field, header bit tables, RCODE split, option registries, RDLENGTH patch guards. Necessary structural conditions of lossless encoding, decided for all 81 types and all paths; value-level codec behaviour and the round-trip equality are not decided.",
       STATIC_NOTE, "AST/type-level sibling conformance against RFC layout table; CFG edge-dominance; constant agreement")
 
+claim("C20",
+      "Static, per-type and per-path: every generated isDuplicate compares each RDATA field with the same field of the other record through the comparator of the field's wire kind (names case-insensitively), nothing but RDATA takes part; copy initialises field i from field i; header comparison reads class/type/name only; equal() folds both sides identically; Dedup only lowers the survivor's TTL and compacts in order. Necessary structural conditions; the equivalence-relation and wire-octet equality clauses over all value pairs are not decided.",
+      STATIC_NOTE, "AST sibling conformance of 80 generated comparators against the struct tags; SSA edge-dominance guards for IsDuplicate/Dedup")
+
 _pending = "rules for this property are designed (DESIGN.md §4) but not implemented yet; not claimed until they run"
-for p in ["C02","C03","C04","C05","C06","C07","C08","C09","C10","C11","C12","C13","C14","C15","C16","C17","C18","C20"]:
+for p in ["C02","C03","C04","C05","C06","C07","C08","C09","C10","C11","C12","C13","C14","C15","C16","C17","C18"]:
     na(p, _pending)
 na("C19", "every clause is an equality between index arithmetic on a runtime string and its label sequence; no pairing/ownership/ordering/table structure to decide statically (DESIGN.md §8)")
